@@ -4,24 +4,39 @@ SPEC = dict(
     proof_module="SimbodyProofs.C12",
     harness="ForceLaws",
     sources=["SimbodyModel/Proto.lean", "SimbodyModel/ForceLaws.lean", "SimbodyModel/ForceLawsDriver.lean",
-             "SimbodyProofs/ForceLaws_lemmas.lean", "SimbodyProofs/C37.lean", "SimbodyProofs/C12.lean", "Drivers/C12.lean"],
-    lake_targets=["SimbodyProofs.ForceLaws_lemmas", "SimbodyProofs.C37"],
+             "SimbodyProofs/ForceLaws_lemmas.lean", "SimbodyProofs/ForceLaws_nonvacuity.lean", "SimbodyProofs/C37.lean",
+             "SimbodyProofs/C12.lean", "Drivers/C12.lean"],
+    lake_targets=["SimbodyProofs.ForceLaws_lemmas", "SimbodyProofs.ForceLaws_nonvacuity", "SimbodyProofs.C37"],
     n=dict(quick=560, thorough=14000),
     modes=["c12", "c12contact"],
     rtol=1e-9, atol=1e-12,
-    rule="mode c12: the 14 non-contact element kinds in turn (random trees of 1-4 bodies, random parameters and q,u); forces and PE "
-         "are compared with the model and the implementation-side predicates compare the delivered power with the central "
-         "difference (h=1e-6) of calcPotentialEnergyContribution along q +- h*qdot (tolerance 1e-6*scale: truncation O(h^2), "
-         "rounding eps/h ~1e-10 relative; a wrong factor gives O(1)); mode c12contact: HuntCrossleyForce scenes with 1-4 spheres "
-         "and ElasticFoundationForce mesh scenes; distinct = distinct input records",
-    partial="LinearBushing: power = sum f_i*qdot_i (virtual work) and the documented rates are proved; that the coded qdot = N*w is the "
-            "time derivative of the inferred Euler angles is the kinematic fact of C28/C05 and is only checked numerically here "
-            "(finite difference P line); contact elements are proved at fixed contact geometry (penetration rate = approach speed, "
-            "DESIGN C12) and for HuntCrossley/ElasticFoundation/ExponentialSpring-normal only; Hertz generators of "
-            "CompliantContactSubsystem, brick and mesh generators, CableSpring and Thermostat are not covered by a power theorem; "
-            "the contact P lines use the finite difference of the reported PE, which is meaningful only while the contact set is "
-            "unchanged within +-h (guaranteed by the generator's depths >> h*speed)",
+    rule="mode c12: the 15 non-contact element kinds in turn (TwoPoint*, Constant*, Mobility*, GlobalDamper, UniformGravity, Gravity, "
+         "LinearBushing, CableSpring on a straight path) on random trees of 1-4 bodies with random parameters and q,u; "
+         "mode c12contact: HuntCrossleyForce scenes with 1-4 spheres (multi-contact) and single sphere, ElasticFoundationForce mesh "
+         "scenes, frictionless ExponentialSpringForce (= its normal part; record expnPE with the reported PE), Hertz contacts of "
+         "CompliantContactSubsystem (1-4 contacts), CableSpring, mesh and brick contacts of CompliantContactSubsystem (predicates only). "
+         "Forces and PE are compared with the model; the P lines compare the delivered power with the central difference (h=1e-6) of "
+         "the reported PE along q +- h*qdot (tolerance 1e-6*scale: truncation O(h^2), rounding eps/h ~1e-10 relative; a wrong factor "
+         "gives O(1)); for MobilityLinearStop, HuntCrossley and ElasticFoundation the *value* of the dissipation term is a record of "
+         "its own (dissStop/dissHC/dissEF: model = power + jet derivative of the coded PE, implementation = power + finite "
+         "difference; compared with atol 2e-6*power scale, so max_rel_diff_seen of these records is not meaningful); "
+         "distinct = distinct input records",
+    partial="(i) proved about the executed model definitions AND checked on the implementation: TwoPointLinearSpring, "
+            "MobilityLinearSpring, MobilityLinearStop, UniformGravity, Gravity, LinearBushing (rate along the coded qdot), HuntCrossley "
+            "(one contact; the list is additive by C37 hc_sum_over_contacts), ElasticFoundationForce (one spring), ExponentialSpring "
+            "normal part with the cap maxNormalForce inactive (exp_normal_power_eq about expNormal/expPE), CableSpring tension law "
+            "(cable_power_eq; that the path delivers -tension*Ldot is CablePath's property, here a P line), Hertz generator in the frame "
+            "of surface 1 (hertz_power_eq); dampers and constant elements: pe_is_zero (+ power <= 0 for dampers). "
+            "(ii) predicate only: that LinearBushing's coded qdot = N*w is the derivative of its Euler angles (C28/C05), the transfer of "
+            "the Hertz statement from the surface-1 frame to the body forces, mesh (elastic foundation) and brick generators of "
+            "CompliantContactSubsystem, CablePath's force application, contact geometry rates (penetration rate = approach speed is an "
+            "assumption of the contact theorems; for ElasticFoundation the nearest point moves and only the finite difference sees it). "
+            "(iii) not covered: Force::Thermostat, Force::Custom, cables with obstacles, HertzElliptical, ExponentialSpring with friction. "
+            "Shown finding: with the cap active ExponentialSpringForce reports PE=(max-fzDamp)/d2 and the dissipation term is positive "
+            "(keys ExponentialSpringForce.capped.diss_le_0 / .diss_eq_0; the source carries a TODO for it)",
     assumptions=["jets: d/dt is the formal derivative with Rdot=[w]xR, pdot=v, qdot=u for the mobility elements (their documented domain), "
-                 "sqrt lifted by its Taylor coefficient (DESIGN.md §3 item 6)",
-                 "libm sqrt/exp are trusted (function parameters of the model)"],
+                 "sqrt and exp lifted by their Taylor coefficients (DESIGN.md §3 item 6)",
+                 "contact theorems are stated at fixed contact geometry: d(depth)/dt = approach speed along the normal (exact for "
+                 "sphere/half-space, sphere/sphere to first order); the motion of the contact point over the surfaces is C35",
+                 "libm sqrt/exp are trusted (function parameters of the model; SqrtSpec is inhabited by Real.sqrt: ForceLaws_nonvacuity.lean)"],
 )
